@@ -455,6 +455,33 @@ def c04_fixed():
     # digit and marker case, leading zeros
     case("digit-case-leading-zeros", "h = %x6a %X6A %x006a %x0A.0a.00a %D048 %B00110000\r\n",
          [("h", ["cat", [L(1, "j"), L(1, "j"), L(1, "j"), L(1, "\n\n\n"), L(1, "0"), L(1, "0")]])])
+    # alternatives that PRINT alike (str() of the parser objects) but are different parsers, and alternatives spelled twice: every one
+    # of them is an alternative of the compiled rule, in the order written
+    case("alternatives-that-print-alike",
+         'p1 = %x0A / %s"\\x0a" / %x0A\r\np2 = "a" / %s"a" / %i"A" / "a"\r\np3 = %x41 / %s"A" / "A"\r\np4 = "ab" / "a" "b" / %x61.62 / ( "a" "b" )\r\n'
+         'p5 = *a / 0*a / [a] / 0*1a / *a\r\na = "a"\r\np6 = a / A / <a> / a\r\n',
+         [("p1", ["alt", 0, [L(1, "\n"), L(1, "\\x0a"), L(1, "\n")]]), ("p2", ["alt", 0, [L(0, "a"), L(1, "a"), L(0, "A"), L(0, "a")]]),
+          ("p3", ["alt", 0, [L(1, "A"), L(1, "A"), L(0, "A")]]),
+          ("p4", ["alt", 0, [L(0, "ab"), ["cat", [L(0, "a"), L(0, "b")]], L(1, "ab"), ["cat", [L(0, "a"), L(0, "b")]]]]),
+          ("p5", ["alt", 0, [["rep", 0, None, ["ref", "a"]], ["rep", 0, None, ["ref", "a"]], ["opt", ["ref", "a"]], ["rep", 0, 1, ["ref", "a"]],
+                             ["rep", 0, None, ["ref", "a"]]]]),
+          ("a", L(0, "a")), ("p6", ["alt", 0, [["ref", "a"], ["ref", "A"], ["ref", "a"], ["ref", "a"]]])])
+    # a rulelist of more than a thousand rules in ONE text, with comment lines, blank lines and continuation lines that begin with a tab
+    # or with spaces (too large for the models: compiled structure vs the syntax the text was written from)
+    big_lines, big_rules = [], []
+    for k in range(1150):
+        nm = f"big{k}"
+        if k % 5 == 0:
+            big_lines += [f'{nm} = "a{k}"', f'\t/ %d{65 + k % 26} big{(k + 1) % 1150}', f'    / 2*3"z" ; comment {k}']
+            big_rules.append((nm, ["alt", 0, [L(0, f"a{k}"), ["cat", [L(1, chr(65 + k % 26)), ["ref", f"big{(k + 1) % 1150}"]]], ["rep", 2, 3, L(0, "z")]]]))
+        elif k % 5 == 1:
+            big_lines += [f'{nm} =', f'\t"b{k}" DIGIT', "; a comment line", ""]
+            big_rules.append((nm, ["cat", [L(0, f"b{k}"), ["ref", "DIGIT"]]]))
+        else:
+            big_lines += [f'{nm} = %x{0x100 + k:X} [ big{(k + 7) % 1150} ]']
+            big_rules.append((nm, ["cat", [L(1, chr(0x100 + k)), ["opt", ["ref", f"big{(k + 7) % 1150}"]]]]))
+    case("more-than-a-thousand-rules", "\r\n".join(big_lines) + "\r\n", big_rules)
+    out[-1]["impl_only"] = True
     # nested groups inside an alternation stay nested; =/ twice nests twice
     case("nested-groups-and-incremental",
          'g = "a" / ( "b" / "c" ) / "d"\r\ne = "a"\r\ne =/ "b"\r\ne =/ "c" / "d"\r\n',
@@ -480,11 +507,14 @@ def run_c04(cases):
         # fresh classes for the next scenario: python side keeps old classes; relabel by using a new class id
     # the python registry is global: every scenario used class id 100 of ITS OWN fresh type object; dumps are taken
     # right after each scenario, so later scenarios do not disturb them (impl_run builds fresh type objects)
-    outs0 = [run_driver(model_lines(c["scenario"], 0)) for c in cases]
-    outs1 = [run_driver(model_lines(c["scenario"], 1)) for c in cases]
+    outs0 = [run_driver(model_lines(c["scenario"], 0)) if not c.get("impl_only") else None for c in cases]
+    outs1 = [run_driver(model_lines(c["scenario"], 1)) if not c.get("impl_only") else None for c in cases]
     for c, (st, dump), o0, o1 in zip(cases, impl_results, outs0, outs1):
-        st0, d0, _ = split_model_output(o0, c["scenario"], 0)
-        st1, d1, _ = split_model_output(o1, c["scenario"], 0)
+        if c.get("impl_only"):
+            st0, d0, st1, d1 = st, None, st, None          # too large for the models: the compiled structure vs the syntax it was written from
+        else:
+            st0, d0, _ = split_model_output(o0, c["scenario"], 0)
+            st1, d1, _ = split_model_output(o1, c["scenario"], 0)
         want = ast_dump(c["rules"], "c100", CORE)
         def unflag(e):
             # first-match flags are configuration, not part of what the text denotes (they are compared against the
